@@ -242,6 +242,20 @@ class Ctx:
             key = crash_key or (self.id + '/crash')
             if isinstance(case, dict) and case.get('crashkey'):
                 key = case['crashkey']
+            # recogniser for one recorded finding: the runtime unwinder dies on a pc at entry+11 (the second
+            # instruction of goom's 13-byte entry jump) of a mocked function whose own code is shorter than that
+            try:
+                m = re.search(r'invalid pc-encoded table f=(\S+) pc=0x([0-9a-f]+) targetpc=0x([0-9a-f]+)', txt)
+                ents = case.get('entries') if isinstance(case, dict) else None
+                if m and ents and m.group(1) in ents:
+                    entry, end, tpc = int(ents[m.group(1)]), int(m.group(2), 16), int(m.group(3), 16)
+                    if tpc == entry + 11 and end - entry < 13:
+                        key = self.id + '/preempted-on-overhanging-entry-jump'
+                        tail = 'runtime unwinder: pc %#x = entry+11 of mocked %s whose code is only %d bytes' % (tpc, m.group(1), end - entry)
+                if isinstance(case, dict):
+                    case.pop('entries', None)
+            except Exception:
+                pass
             self.violations.append({'key': key, 'what': '%s died rc=%s: %s' % (what, ch.rc, tail),
                                     'case': {'journal_last': case, 'log': ch.log}})
 
@@ -282,6 +296,10 @@ class Ctx:
                 seen_known[k] = seen_known.get(k, 0) + 1
             else:
                 unlisted.append(v)
+        if not self.samples:
+            self.samples.append({'note': 'no case ran to completion in this run',
+                                 'first_violation': (self.violations[0].get('what') if self.violations else None),
+                                 'inconclusive': self.inconclusive[:2]})
         cov = {
             'evaluations': int(self.evaluations),
             'distinct_nontrivial': len(self.distinct),
